@@ -15,7 +15,7 @@ VARIABLES hist, steps
 R(S) == {RandomElement(S)}
 
 Quiet ==
-  /\ TeeEmpty
+  /\ TeeEmpty /\ l1pend = -1
   /\ \A s \in Subs : ~(Idle(s) /\ NReady(s) >= 1)
   /\ \A s \in Subs : ~(Running(s) /\ sub[s].mode = "tick" /\ sub[s].canc)
   /\ \A c \in Conns : ~(req[c] # 0 /\ sub[req[c]].st = "done")
@@ -26,6 +26,7 @@ Forced ==
   \/ \E s \in Subs : \E f \in Feeds : Take(s, f)
   \/ \E s \in Subs : Exit(s)
   \/ \E c \in Conns : UnsubDone(c)
+  \/ (\A s \in Subs : ~(Idle(s) /\ Full(s, "l"))) /\ L1Write     \* the harness holds the database write back until the idle subscribers have handled the event
 
 (* subscriptions that are mostly accepted, all kinds about equally often *)
 SimSubscribe ==
@@ -76,7 +77,7 @@ EmitBeh == /\ PrintT(ToJson([steps |-> hist]))
         /\ chain' = [i \in 1..InitLen |-> i]
         /\ blk' = [t \in Tags |-> IF t <= InitLen THEN [h |-> t - 1, p |-> t - 1, txs |-> <<>>] ELSE NoBlk]
         /\ nTag' = InitLen /\ nTx' = 0 /\ nRev' = 0 /\ nL1' = 0 /\ nPc' = 0 /\ nGw' = 0 /\ nRecv' = 0 /\ nTick' = 0
-        /\ l1' = StartAtL1 /\ pc' = NoP /\ gw' = [t \in Txs |-> 0] /\ orph' = <<>>
+        /\ l1' = StartAtL1 /\ l1pend' = -1 /\ pc' = NoP /\ gw' = [t \in Txs |-> 0] /\ orph' = <<>>
         /\ reorg' = NoR /\ notify' = <<>>
         /\ tee' = [h |-> 0, r |-> NoR, p |-> NoP, l |-> -1]
         /\ slot' = [s \in Subs |-> NoSlots] /\ sub' = [s \in Subs |-> FreeSub] /\ got' = [s \in Subs |-> <<>>]
